@@ -76,6 +76,10 @@ def missingSerdeCrate : Item → Bool
     (ds.contains "Serialize" || ds.contains "Deserialize") && sc.isNone
   | _ => false
 
+/-- the operation struct (`pub struct Op;`, emitted next to the module in CLI / library form) and the
+    module `pub mod <snake(op)>` share Rust's type namespace: they must not carry the same name -/
+def headerClash (modName : String) (structDecl : Option String) : Bool := structDecl == some modName
+
 structure Report where
   undefined : List String
   duplicateDefs : List String
